@@ -16,6 +16,7 @@ from vf import core, gen, pipe, symx
 ID = "C17"
 FORMULAS = [
     "y ~ x", "y ~ x + f + f:x", "y ~ 0 + f:g", "y ~ poly(x, 2, raw=True) + g", "y ~ C(k) + x:C(k)", "f ~ x", "g[t] ~ x + f", "x + f",
+    "y ~ w12 + x", "y ~ 0 + w12", "y ~ x + q1 + f", "y ~ q1", "y ~ (1|w12)",
     "y ~ x + (1|g)", "y ~ (x|g)", "y ~ (f|g)", "y ~ (0 + f|g)", "y ~ (1|g) + (x|h)", "y ~ (x|g) + (f|h) + (1|g:h)", "y ~ (0 + f:x|g)", "y ~ f + (x + f|g)", "y ~ (poly(x, 2, raw=True)|g)",
 ]
 CHAINS = [[], ["seen"], ["unseen"], ["seen", "unseen"], ["unseen", "seen"], ["unseen", "unseen"]]
@@ -58,7 +59,7 @@ def check_slices(env, m, what):
     ok = list(m.slices.keys()) == list(m.terms.keys())
     for name in m.terms:
         sl = m.slices.get(name)
-        if sl is None or sl.start != start or sl.stop <= sl.start or sl.step not in (None, 1):
+        if sl is None or sl.start != start or sl.stop < sl.start or sl.step not in (None, 1):  # an empty slice (zero-column term) is fine
             ok = False
             break
         start = sl.stop
@@ -163,8 +164,14 @@ def harness(env, case):
 
     formula, flavour, chain = case
     vars_ = gen.used_vars(formula)
-    df, rows = gen.build_frame(env, vars_, flavour, "scramble", min_rows=5)
+    extra_cols = {}
+    base_vars = [v for v in vars_ if v not in ("w12", "q1")]
+    df, rows = gen.build_frame(env, base_vars, flavour, "scramble", min_rows=13)
     n = len(df)
+    if "w12" in formula:
+        df["w12"] = [f"L{(i * 5) % 12:02d}" for i in range(n)] if n >= 12 else [f"L{i:02d}" for i in range(n)]
+    if "q1" in formula:
+        df["q1"] = ["only"] * n
     config["EVAL_UNSEEN_CATEGORIES"] = "error"
     try:
         with env.running():
